@@ -862,6 +862,9 @@ class H2Stream:
 
         events = self.state_machine.process_input(input_)
 
+        if self.state_machine.trailers_sent and not end_stream:
+            raise ProtocolError("Trailers must have END_STREAM set.")
+
         hf = HeadersFrame(self.stream_id)
         hdr_validation_flags = self._build_hdr_validation_flags(events)
         frames = self._build_headers_frames(
@@ -873,9 +876,6 @@ class H2Stream:
             # frame, not the CONTINUATION frames that follow.
             self.state_machine.process_input(StreamInputs.SEND_END_STREAM)
             frames[0].flags.add('END_STREAM')
-
-        if self.state_machine.trailers_sent and not end_stream:
-            raise ProtocolError("Trailers must have END_STREAM set.")
 
         if self.state_machine.client and self._authority is None:
             self._authority = authority_from_headers(headers)
